@@ -159,6 +159,7 @@ func runControls(rules []string) ([]controlResult, []string) {
 	for _, r := range rules {
 		cr := controlResult{Rule: r}
 		tokRe := regexp.MustCompile("Bad" + r + "[A-Za-z0-9_]*")
+		letterRe := regexp.MustCompile("Bad" + r[:1] + "([^0-9A-Za-z]|[a-z][A-Za-z0-9_]*|$)")
 		fired := map[string]bool{}
 		seenTok := map[string]bool{}
 		for _, ob := range all {
@@ -166,7 +167,12 @@ func runControls(rules []string) ([]controlResult, []string) {
 				continue
 			}
 			tok := tokRe.FindString(ob.Key)
-			isGood := strings.Contains(ob.Key, "Good")
+			isGood := goodFor(ob.Key, r)
+			if tok == "" && ob.Verdict == Violated && letterRe.MatchString(ob.Key) {
+				// a fixture named for the whole engine (BadQ): counts when it fires, is not required to fire for every rule
+				cr.Fired = append(cr.Fired, ob.Key)
+				continue
+			}
 			switch {
 			case tok != "":
 				seenTok[tok] = true
@@ -284,4 +290,18 @@ func doDump(p *Prog, what, rules string) {
 			fmt.Println("PANIC:", pn)
 		}
 	}
+}
+
+var goodTokRe = regexp.MustCompile(`Good([A-Z][0-9]*)`)
+
+// goodFor: the construct is a good twin for rule r — its name contains Good<X> where X is the rule (GoodA1) or the
+// rule's engine letter (GoodQ covers Q1..Q3).
+func goodFor(key, r string) bool {
+	for _, m := range goodTokRe.FindAllStringSubmatch(key, -1) {
+		x := m[1]
+		if x == r || (len(x) == 1 && strings.HasPrefix(r, x)) {
+			return true
+		}
+	}
+	return false
 }
